@@ -61,7 +61,7 @@ func vpGenProg(budget *int, depth int) *vpProg {
 	case gParen:
 		p.kids = []*vpProg{vpGenProg(budget, depth-1)}
 	case gBadAssign:
-		p.lit = vpChoice("bad", 3) // 0: x = e, 1: 1 = e, 2: x.k = e
+		p.lit = vpChoice("bad", 4) // 0: x = e, 1: 1 = e, 2: x.k = e, 3: ($a) = e
 		p.kids = []*vpProg{vpGenProg(budget, depth-1)}
 	}
 	return p
@@ -104,6 +104,8 @@ func (p *vpProg) ast() Expression {
 			target = vpId("x")
 		case 1:
 			target = vpNumLit(1)
+		case 3:
+			target = &ParenthesizedExpression{Expression: vpId("$a")}
 		default:
 			target = &SelectorExpression{Expression: vpId("x"), Name: vpId("k")}
 		}
@@ -192,6 +194,12 @@ func vpSameRef(got interface{}, want interface{}) bool {
 	case int:
 		g, ok := got.(*decimal.Big)
 		return ok && vpBigIsInt64(g, int64(w))
+	case bool:
+		g, ok := got.(bool)
+		return ok && g == w
+	case string:
+		g, ok := got.(string)
+		return ok && g == w
 	case []interface{}:
 		g, ok := got.([]interface{})
 		if !ok || len(g) != len(w) {
@@ -342,6 +350,9 @@ func VP_C07_sequencing() {
 func VP_C07_builtins() {
 	fn := []string{"round", "roundBank", "abs", "ceil", "floor", "toInt", "finite", "toString", "max", "min"}[vpChoice("fn", 10)]
 	x := vpNumParamExp("x", 1000, -2, 0)
+	if vpBool("manyDigits") {
+		x.coef += 1234567890123456000 // 19 significant digits: not representable in binary floating point
+	}
 	num := x.big()
 	data := map[string]interface{}{"num": num}
 	vpFreeze("data", data)
